@@ -105,6 +105,10 @@ type c15Op struct {
 	// many (RenameMany/DeleteMany) single (Rename/Delete/DeleteByName on the first target)
 	// names (MapRename / DeleteManyByNames)
 	API string `json:"api,omitempty"`
+	// the request runs inside a transaction of the gateway's store that is committed if it
+	// succeeds and discarded if it fails, as the API layer issues it; otherwise through
+	// the service's embedded writer (no transaction: every table write applies at once)
+	Tx bool `json:"tx,omitempty"`
 }
 
 type c15Case struct {
@@ -190,6 +194,7 @@ func genC15(t *rapid.T) c15Case {
 			if len(op.Specs) == 0 {
 				op.Specs = []c15Spec{{Name: "d", Kind: "index"}}
 			}
+			op.Tx = rapid.Bool().Draw(t, "ctx")
 			c.Ops = append(c.Ops, op)
 		case k < 13:
 			op := c15Op{K: "rename", Gateway: gw, API: rapid.SampledFrom([]string{"many", "many", "single", "names"}).Draw(t, "rapi")}
@@ -197,12 +202,14 @@ func genC15(t *rapid.T) c15Case {
 				op.Refs = append(op.Refs, c15DrawRef(t, "rref"))
 				op.Names = append(op.Names, c15DrawName(t, "rname"))
 			}
+			op.Tx = rapid.Bool().Draw(t, "rtx")
 			c.Ops = append(c.Ops, op)
 		case k < 18:
 			op := c15Op{K: "delete", Gateway: gw, API: rapid.SampledFrom([]string{"many", "many", "single", "names"}).Draw(t, "dapi")}
 			for s := rapid.IntRange(1, 3).Draw(t, "ndel"); s > 0; s-- {
 				op.Refs = append(op.Refs, c15DrawRef(t, "dref"))
 			}
+			op.Tx = rapid.Bool().Draw(t, "dtx")
 			c.Ops = append(c.Ops, op)
 		default:
 			c.Ops = append(c.Ops, c15Op{K: "restart", Gateway: gw})
@@ -566,6 +573,25 @@ type c15Run struct {
 
 func (r *c15Run) svc(k int) *channel.Service { return r.cl.nodes[node.Key(k)].layer.Channel }
 
+func c15TxNote(op c15Op) string {
+	if op.Tx {
+		return " in a transaction"
+	}
+	return ""
+}
+
+// write issues one request through op's gateway: with the service's embedded writer, or
+// inside a transaction that is committed on success and discarded on failure.
+func (r *c15Run) write(op c15Op, f func(w channel.Writer) error) error {
+	n := r.cl.nodes[node.Key(op.Gateway)]
+	if !op.Tx {
+		r.st.Probe("request_without_transaction")
+		return f(n.layer.Channel.Writer)
+	}
+	r.st.Probe("request_in_transaction")
+	return n.layer.DB.WithTx(r.ctx, func(tx gorp.Tx) error { return f(n.layer.Channel.NewWriter(tx)) })
+}
+
 // via classifies how a request entered relative to the channel's leaseholder.
 func (r *c15Run) via(gw int, lease node.Key) string {
 	switch {
@@ -780,10 +806,14 @@ type c15Ctx struct {
 	opt     string
 	outcome string // ok failed
 	gw      int
+	tx      bool
 }
 
 func (x c15Ctx) sig() string {
 	s := x.op
+	if x.tx {
+		s += "@tx"
+	}
 	if x.opt != "" {
 		s += "+" + x.opt
 	}
@@ -1246,7 +1276,7 @@ func (w c15Want) sameProps(e c15Row) bool {
 }
 
 func (r *c15Run) doCreate(oi int, op c15Op) *drv.Failure {
-	x := c15Ctx{op: "create", opt: op.Opt, gw: op.Gateway}
+	x := c15Ctx{op: "create", opt: op.Opt, gw: op.Gateway, tx: op.Tx}
 	var chans []channel.Channel
 	var wants []c15Want
 	mayCreate := map[string]bool{}
@@ -1316,12 +1346,12 @@ func (r *c15Run) doCreate(oi int, op c15Op) *drv.Failure {
 	case "overwrite":
 		opts = append(opts, channel.OverwriteIfNameExistsAndDifferentProperties())
 	}
-	what := fmt.Sprintf("op %d: create%s %v through node %d", oi, map[string]string{"": "", "retrieve": " (RetrieveIfNameExists)", "overwrite": " (OverwriteIfNameExistsAndDifferentProperties)"}[op.Opt], op.Specs, op.Gateway)
+	what := fmt.Sprintf("op %d: create%s %v through node %d%s", oi, map[string]string{"": "", "retrieve": " (RetrieveIfNameExists)", "overwrite": " (OverwriteIfNameExistsAndDifferentProperties)"}[op.Opt], op.Specs, op.Gateway, c15TxNote(op))
 	var err error
 	if len(chans) == 1 && oi%2 == 1 && chans[0].Expression == "" { // Create hands back one channel: not for calculated ones, which come with an index
-		err = r.svc(op.Gateway).Create(r.ctx, &chans[0], opts...)
+		err = r.write(op, func(w channel.Writer) error { return w.Create(r.ctx, &chans[0], opts...) })
 	} else {
-		err = r.svc(op.Gateway).CreateMany(r.ctx, &chans, opts...)
+		err = r.write(op, func(w channel.Writer) error { return w.CreateMany(r.ctx, &chans, opts...) })
 	}
 	if err != nil {
 		x.outcome = "failed"
@@ -1548,7 +1578,7 @@ func (r *c15Run) target(ref, gw int) (channel.Key, string) {
 // ---- rename ----------------------------------------------------------------------------
 
 func (r *c15Run) doRename(oi int, op c15Op) *drv.Failure {
-	x := c15Ctx{op: "rename", api: op.API, gw: op.Gateway}
+	x := c15Ctx{op: "rename", api: op.API, gw: op.Gateway, tx: op.Tx}
 	var keys channel.Keys
 	var names []string
 	var kinds []string
@@ -1566,8 +1596,8 @@ func (r *c15Run) doRename(oi int, op c15Op) *drv.Failure {
 	switch api {
 	case "single":
 		keys, names, kinds = keys[:1], names[:1], kinds[:1]
-		what = fmt.Sprintf("op %d: Rename(%d -> %q) [%s] through node %d", oi, keys[0], names[0], kinds[0], op.Gateway)
-		err = r.svc(op.Gateway).Rename(r.ctx, keys[0], names[0], false)
+		what = fmt.Sprintf("op %d: Rename(%d -> %q) [%s] through node %d%s", oi, keys[0], names[0], kinds[0], op.Gateway, c15TxNote(op))
+		err = r.write(op, func(w channel.Writer) error { return w.Rename(r.ctx, keys[0], names[0], false) })
 		mayRename[keys[0]] = names[0]
 	case "names":
 		// MapRename addresses channels by their current names: every live channel with
@@ -1591,11 +1621,11 @@ func (r *c15Run) doRename(oi int, op c15Op) *drv.Failure {
 				mayRename[k] = nn
 			}
 		}
-		what = fmt.Sprintf("op %d: MapRename(%v) (channels %v) through node %d", oi, m, keys, op.Gateway)
-		err = r.svc(op.Gateway).MapRename(r.ctx, m, false)
+		what = fmt.Sprintf("op %d: MapRename(%v) (channels %v) through node %d%s", oi, m, keys, op.Gateway, c15TxNote(op))
+		err = r.write(op, func(w channel.Writer) error { return w.MapRename(r.ctx, m, false) })
 	default:
-		what = fmt.Sprintf("op %d: RenameMany(%v -> %q) %v through node %d", oi, keys, names, kinds, op.Gateway)
-		err = r.svc(op.Gateway).RenameMany(r.ctx, keys, names, false)
+		what = fmt.Sprintf("op %d: RenameMany(%v -> %q) %v through node %d%s", oi, keys, names, kinds, op.Gateway, c15TxNote(op))
+		err = r.write(op, func(w channel.Writer) error { return w.RenameMany(r.ctx, keys, names, false) })
 		for i, k := range keys {
 			mayRename[k] = names[i]
 		}
@@ -1638,7 +1668,7 @@ func (r *c15Run) doRename(oi int, op c15Op) *drv.Failure {
 // ---- delete ----------------------------------------------------------------------------
 
 func (r *c15Run) doDelete(oi int, op c15Op) *drv.Failure {
-	x := c15Ctx{op: "delete", api: op.API, gw: op.Gateway}
+	x := c15Ctx{op: "delete", api: op.API, gw: op.Gateway, tx: op.Tx}
 	var keys channel.Keys
 	var kinds []string
 	for _, ref := range op.Refs {
@@ -1654,8 +1684,8 @@ func (r *c15Run) doDelete(oi int, op c15Op) *drv.Failure {
 	switch op.API {
 	case "single":
 		keys, kinds = keys[:1], kinds[:1]
-		what = fmt.Sprintf("op %d: Delete(%d) [%s] through node %d", oi, keys[0], kinds[0], op.Gateway)
-		err = r.svc(op.Gateway).Delete(r.ctx, keys[0], false)
+		what = fmt.Sprintf("op %d: Delete(%d) [%s] through node %d%s", oi, keys[0], kinds[0], op.Gateway, c15TxNote(op))
+		err = r.write(op, func(w channel.Writer) error { return w.Delete(r.ctx, keys[0], false) })
 	case "names":
 		var names []string
 		for _, k := range keys {
@@ -1675,15 +1705,15 @@ func (r *c15Run) doDelete(oi int, op c15Op) *drv.Failure {
 			}
 		}
 		if len(names) == 1 && oi%2 == 0 {
-			what = fmt.Sprintf("op %d: DeleteByName(%q) (channels %v) through node %d", oi, names[0], keys, op.Gateway)
-			err = r.svc(op.Gateway).DeleteByName(r.ctx, names[0], false)
+			what = fmt.Sprintf("op %d: DeleteByName(%q) (channels %v) through node %d%s", oi, names[0], keys, op.Gateway, c15TxNote(op))
+			err = r.write(op, func(w channel.Writer) error { return w.DeleteByName(r.ctx, names[0], false) })
 		} else {
-			what = fmt.Sprintf("op %d: DeleteManyByNames(%q) (channels %v) through node %d", oi, names, keys, op.Gateway)
-			err = r.svc(op.Gateway).DeleteManyByNames(r.ctx, names, false)
+			what = fmt.Sprintf("op %d: DeleteManyByNames(%q) (channels %v) through node %d%s", oi, names, keys, op.Gateway, c15TxNote(op))
+			err = r.write(op, func(w channel.Writer) error { return w.DeleteManyByNames(r.ctx, names, false) })
 		}
 	default:
-		what = fmt.Sprintf("op %d: DeleteMany(%v) %v through node %d", oi, keys, kinds, op.Gateway)
-		err = r.svc(op.Gateway).DeleteMany(r.ctx, keys, false)
+		what = fmt.Sprintf("op %d: DeleteMany(%v) %v through node %d%s", oi, keys, kinds, op.Gateway, c15TxNote(op))
+		err = r.write(op, func(w channel.Writer) error { return w.DeleteMany(r.ctx, keys, false) })
 	}
 	for _, k := range keys {
 		mayDelete[k] = true
